@@ -222,12 +222,13 @@ func runC06(tier string) int {
 	r.Assume("names are <owner>_Text_<n> / <owner>_Movement_<n>, n counting the owner's new contents in source order of first appearance; content of a moves() is its written, expanded step list",
 		"identical content = identical text after terminator and format() processing and identical string type")
 	return r.Finish(r.Get("evaluations"), r.Get("nontrivial"),
-		"every file with N inline arguments distributed over 3 owners (two scripts and an inline map script, <= 3 each) x every assignment of 23 datum kinds (plain / already-terminated / formatted / other text, ascii, braille and custom types incl. typed texts whose final literal equals a plain one, one literal under six format() parameter sets of which two give the same result, 9 moves() spellings incl. lists that differ only in the length of their last run or whose run-length spelling collides with another step name) x context rotations over 13 contexts (statement, if, while, switch case, AutoVar condition, selected poryswitch case, '_' case after an unselected one, do-while condition, AutoVar leaf in a parenthesised / negated group followed by an operator, elif condition, AutoVar switch operand, second of two inline data in one command) x {no user name, a user text, a user movement named like a generated label}; plus long files with K pairwise different inline arguments for every K up to the bound in the coverage (5 text/movement patterns x 3 owner splits x 2 context rotations); non-trivial = some content is shared between two arguments")
+		"every file with N inline arguments distributed over 3 owners (two scripts and an inline map script, <= 3 each) x every assignment of 23 datum kinds (plain / already-terminated / formatted / other text, ascii, braille and custom types incl. typed texts whose final literal equals a plain one, one literal under six format() parameter sets of which two give the same result, 9 moves() spellings incl. lists that differ only in the length of their last run or whose run-length spelling collides with another step name) x context rotations over 13 contexts (statement, if, while, switch case, AutoVar condition, selected poryswitch case, '_' case after an unselected one, do-while condition, AutoVar leaf in a parenthesised / negated group followed by an operator, elif condition, AutoVar switch operand, second of two inline data in one command) x {no user name, a user text, a user movement named like a generated label}, every file defining constants named like the text contents and movement steps; plus long files with K pairwise different inline arguments for every K up to the bound in the coverage (5 text/movement patterns x 3 owner splits x 2 context rotations); non-trivial = some content is shared between two arguments")
 }
 
 func c06Eval(r *harness.Run, data []datum, dist []int, rot, clash int) {
-	// Build the file.
+	// Build the file. It starts with constants named like text contents and movement steps (they must not touch either).
 	var sb strings.Builder
+	sb.WriteString("const hi = 42\nconst yo = hi\nconst a = zz\nconst X = X\n")
 	type slot struct {
 		cmd   string
 		owner string
